@@ -3,7 +3,7 @@ from collections import deque
 
 import flow
 import values
-from lib import World, tagpath, enforced, is_call, callee_name, TAG, VERSION, VERSIONS
+from lib import iter_elem, World, tagpath, enforced, is_call, callee_name, TAG, VERSION, VERSIONS
 from framework import spec
 from mir import strip_generics, AnchorMissing
 
@@ -46,7 +46,9 @@ def predicate_closure(ctx, W):
                 if any(x in S for x in tg):
                     cterm = ev.call_term(bb)
                     r = ev.ret()
-                    if r == cterm:
+                    # the result itself, or `false` on additional early-outs (which only makes the predicate stricter)
+                    alts = r[1] if isinstance(r, tuple) and r and r[0] == "phi" else (r,)
+                    if cterm in alts and all(a == cterm or a == ("int", 0) for a in alts):
                         S.add(fn.path)
                         changed = True
     return S
@@ -73,7 +75,21 @@ def verify_triple(ctx, W, fnpath, bb, S):
             if b2 == bb:
                 continue
             if argi == 0 and strip_generics(callee).endswith("MsgVerifier::update"):
-                if not fn.dominates(b2, bb) or fn.in_loop(b2):
+                if fn.in_loop(b2):
+                    # `for part in parts { verifier.update(part) }`: every element of `parts`, in order
+                    ie = iter_elem(W, W.expand(ev.call_args(b2)[1]))
+                    lp = min(fn.in_loop(b2), key=lambda l: len(l["body"]))
+                    whole = ie is not None and ie["what"] == "elem" and ie["fields"] == () and len(lp["exits"]) == 1 and \
+                        all(fn.dominates(b2, s_) for (s_, d_) in lp["backedges"])
+                    if not whole or not any(fn.dominates(h, bb) for h in [lp["header"]]):
+                        return None
+                    cont = ie["container"]
+                    for _ in range(3):
+                        if is_call(cont) and callee_name(cont[1]) in ("iter", "into_iter", "deref", "as_ref", "as_slice") and cont[2]:
+                            cont = W.expand(cont[2][0])
+                    data.append((b2, ("each", cont)))
+                    continue
+                if not fn.dominates(b2, bb):
                     return None
                 data.append((b2, ev.call_args(b2)[1]))
             elif argi == 0 and fn.blocks[b2].term["arg_tys"][0].startswith("&mut"):
@@ -86,7 +102,9 @@ def verify_triple(ctx, W, fnpath, bb, S):
             # the single predicate call whose result is returned
             cev = W.ev(tg)
             for b2, t2 in callee.calls():
-                if any(x in S for x in ctx.prog.call_targets(t2)) and cev.ret() == cev.call_term(b2):
+                r2 = cev.ret()
+                alts2 = r2[1] if isinstance(r2, tuple) and r2 and r2[0] == "phi" else (r2,)
+                if any(x in S for x in ctx.prog.call_targets(t2)) and cev.call_term(b2) in alts2:
                     inner = verify_triple(ctx, W, tg, b2, S)
                     if inner is None:
                         return None
@@ -103,10 +121,26 @@ def expand_data(W, data, depth=0):
     function is expanded through the helper's return value with its parameters bound."""
     out = []
     for d in data:
-        if isinstance(d, tuple) and d and d[0] == "obj":
+        if isinstance(d, tuple) and d and d[0] == "each":
+            arr = W.expand(d[1])
+            while isinstance(arr, tuple) and arr and arr[0] == "reader":
+                arr = arr[1]
+            if isinstance(arr, tuple) and arr and arr[0] == "obj":
+                ini = W.obj_init(arr)
+                arr = ini if ini is not None else arr
+            if isinstance(arr, tuple) and arr and arr[0] == "agg" and arr[1] == "array":
+                inner = expand_data(W, list(arr[2]), depth + 1)
+                if inner is None:
+                    return None
+                out.extend(inner)
+            else:
+                out.append(d)
+        elif isinstance(d, tuple) and d and d[0] == "obj":
             seq = W.buffer_seq(d)
             if seq is None:
                 return None
+            if seq and is_call(seq[0]) and callee_name(seq[0][1]) in ("new", "with_capacity") and "vec::Vec" in seq[0][1]:
+                seq = seq[1:]      # starts empty
             out.extend(seq)
         elif is_call(d) and callee_name(d[1]) == "concat" and len(d[2]) == 1 and isinstance(d[2][0], tuple) and d[2][0][0] == "agg" and d[2][0][1] == "array":
             # [a, b].concat() is a followed by b
